@@ -421,6 +421,36 @@ theorem stringToBytes_spec (s : Str) (hs : Bytes s) : stringToBytes s = s := by
   conv => rhs; rw [← List.map_id s]
   exact List.map_congr_left (fun b hb => by simp only [id]; have := hs b hb; omega)
 
+/-! ### `string(x)` of an integer operand of any kind -/
+
+/-- the two words of a 64-bit value recombine exactly -/
+theorem flatten64_words (v : Int) : flatten64 (high64 v) (low64 v) = v := by
+  unfold flatten64 high64 low64; omega
+
+/-- **intToString_spec** — for EVERY integer kind (signed, unsigned, 8 to 64 bits, int/uint/uintptr, hence every
+    named type over them) and every value, `string(x)` is the UTF-8 encoding of the VALUE of x: the encoding of the
+    scalar, "\uFFFD" for everything else — in particular for 64-bit values beyond 32 bits. -/
+theorem intToString_spec (k : IntKind) (v : Int) : intToString k v = GV.Spec.Utf8.encode v := by
+  unfold intToString convArg
+  split
+  · rw [flatten64_words]; exact encode_spec v
+  · exact encode_spec v
+
+/-- the JS double computed by `$flatten64` is exact below 2^53; above, the exact sum is far from the rune range:
+    with a non-zero high word it is ≤ -1 or ≥ 2^32 (both doubles), so rounding to nearest cannot make it a scalar. -/
+theorem flatten64_margin (hi lo : Int) (hlo : 0 ≤ lo ∧ lo < 4294967296) (hhi : hi ≠ 0) :
+    flatten64 hi lo ≤ -1 ∨ 4294967296 ≤ flatten64 hi lo := by
+  unfold flatten64; omega
+
+/-- **repaired defect** (fix: string(x) of a 64-bit integer outside the rune range): the code used to pass only
+    `x.$low`, so `string(int64(0x100000041))` was "A" where Go gives "\uFFFD". -/
+theorem old_conversion_counterexample :
+    IntKind.holds .i64 0x100000041 = true ∧
+    encodeRune (convArgOld .i64 0x100000041) = [0x41] ∧ GV.Spec.Utf8.encode 0x100000041 = [0xEF, 0xBF, 0xBD] := by
+  decide
+
+example : intToString .u8 0xE9 = [0xC3, 0xA9] ∧ intToString .i64 (-4294967231) = [0xEF, 0xBF, 0xBD] := by decide
+
 /-! ### string literals survive compilation -/
 
 open GV.StrLit in
